@@ -297,6 +297,8 @@ def validate(traces, checks, module="FlowTrace.tla", cfg="FlowTrace.cfg", timeou
         res = list(ex.map(one, traces))
     lines = sum(r[1] for r in res)
     failures = [f for r in res for f in r[2]]
+    validate.last_states = sum(r[3].distinct for r in res if r[3] is not None)
+    validate.last_generated = sum(r[3].generated for r in res if r[3] is not None)
     return lines, failures
 
 
@@ -330,7 +332,8 @@ class Evidence:
         self.level = level
         self.t0 = time.time()
         self.cov = dict(states=0, transitions=0, traces_validated_against_impl=0, samples=[],
-                        evaluations=0, distinct_nontrivial=0, rule="", models=[], trace_lines=0)
+                        evaluations=0, distinct_nontrivial=0, rule="", models=[], trace_lines=0,
+                        mc_states=0, mc_transitions=0, trace_spec_states=0)
         self.assumptions = []
         self.violations = 0
         self._distinct = set()
@@ -338,6 +341,8 @@ class Evidence:
     def add_model(self, name, r, note=""):
         self.cov["states"] += r.distinct
         self.cov["transitions"] += r.generated
+        self.cov["mc_states"] += r.distinct
+        self.cov["mc_transitions"] += r.generated
         m = dict(model=name, distinct_states=r.distinct, states_generated=r.generated, depth=r.depth,
                  wall_s=round(r.wall, 2), result=r.error or "no error", note=note)
         if r.coverage:
